@@ -4,7 +4,7 @@
 
    Representation choices shared with apollo-parser's token kinds (they do not change which inputs
    are lexically valid): the ignored single characters UnicodeBOM, WhiteSpace and LineTerminator form
-   the kind Whitespace (any non-empty run of them); Comma and Comment are kinds of their own;
+   the kind TkWhitespace (any non-empty run of them); TkComma and TkComment are kinds of their own;
    every Punctuator has its own kind.
 
    Two documented exceptions of the property are built in: a unicode escape is exactly
@@ -97,37 +97,37 @@ Inductive BlockString : str -> Prop :=
 
 (* ---- the lexemes of each token kind ---- *)
 Inductive Lexeme : tkind -> str -> Prop :=
-| Lx_ignored d : d <> [] -> Forall IgnoredChar d -> Lexeme Whitespace d
-| Lx_comment body : Forall CommentChar body -> Lexeme Comment (35 :: body)
-| Lx_comma : Lexeme Comma [44]
-| Lx_bang : Lexeme Bang [33]
-| Lx_dollar : Lexeme Dollar [36]
-| Lx_amp : Lexeme Amp [38]
-| Lx_lparen : Lexeme LParen [40]
-| Lx_rparen : Lexeme RParen [41]
-| Lx_spread : Lexeme Spread [46; 46; 46]
-| Lx_colon : Lexeme Colon [58]
-| Lx_eq : Lexeme Eq [61]
-| Lx_at : Lexeme At [64]
-| Lx_lbracket : Lexeme LBracket [91]
-| Lx_rbracket : Lexeme RBracket [93]
-| Lx_lcurly : Lexeme LCurly [123]
-| Lx_pipe : Lexeme Pipe [124]
-| Lx_rcurly : Lexeme RCurly [125]
-| Lx_name d : IsName d -> Lexeme Name d
-| Lx_int d : IntegerPart d -> Lexeme Int d
-| Lx_float d : FloatValue d -> Lexeme Float d
-| Lx_string d : QuotedString d -> Lexeme StringValue d
-| Lx_block d : BlockString d -> Lexeme StringValue d.
+| Lx_ignored d : d <> [] -> Forall IgnoredChar d -> Lexeme TkWhitespace d
+| Lx_comment body : Forall CommentChar body -> Lexeme TkComment (35 :: body)
+| Lx_comma : Lexeme TkComma [44]
+| Lx_bang : Lexeme TkBang [33]
+| Lx_dollar : Lexeme TkDollar [36]
+| Lx_amp : Lexeme TkAmp [38]
+| Lx_lparen : Lexeme TkLParen [40]
+| Lx_rparen : Lexeme TkRParen [41]
+| Lx_spread : Lexeme TkSpread [46; 46; 46]
+| Lx_colon : Lexeme TkColon [58]
+| Lx_eq : Lexeme TkEq [61]
+| Lx_at : Lexeme TkAt [64]
+| Lx_lbracket : Lexeme TkLBracket [91]
+| Lx_rbracket : Lexeme TkRBracket [93]
+| Lx_lcurly : Lexeme TkLCurly [123]
+| Lx_pipe : Lexeme TkPipe [124]
+| Lx_rcurly : Lexeme TkRCurly [125]
+| Lx_name d : IsName d -> Lexeme TkName d
+| Lx_int d : IntegerPart d -> Lexeme TkInt d
+| Lx_float d : FloatValue d -> Lexeme TkFloat d
+| Lx_string d : QuotedString d -> Lexeme TkStringValue d
+| Lx_block d : BlockString d -> Lexeme TkStringValue d.
 
 (* ---- the lookahead restrictions of the grammar, on the text that follows a lexeme ---- *)
 Definition NumberFollow (c : N) : Prop := Digit c \/ c = 46 \/ NameStart c.
 Definition Restrict (k : tkind) (d rest : str) : Prop :=
   match k with
-  | Name => ~ starts NameContinue rest
-  | Int | Float => ~ starts NumberFollow rest
-  | Comment => ~ starts CommentChar rest
-  | StringValue => d = [34; 34] -> ~ starts (fun c => c = 34) rest
+  | TkName => ~ starts NameContinue rest
+  | TkInt | TkFloat => ~ starts NumberFollow rest
+  | TkComment => ~ starts CommentChar rest
+  | TkStringValue => d = [34; 34] -> ~ starts (fun c => c = 34) rest
   | _ => True
   end.
 
